@@ -451,6 +451,15 @@ func startBuilder(o bop) (*builder, error) {
 	case "start-writeheader":
 		b.m = new(stun.Message)
 		b.m.WriteHeader()
+	case "start-cap":
+		// a Message whose buffer the caller provides: any capacity, poisoned, so that every growth
+		// boundary (also one that falls between a value and its padding) is reached
+		buf := make([]byte, o.Port)
+		for i := range buf {
+			buf[i] = 0xA7
+		}
+		b.m = &stun.Message{Raw: buf[:0]}
+		b.m.WriteHeader()
 	case "start-encode":
 		b.m = new(stun.Message)
 		b.m.Encode()
@@ -709,7 +718,9 @@ func genStep(rt *rapid.T) bop {
 }
 
 func genStart(rt *rapid.T) bop {
-	switch rapid.IntRange(0, 7).Draw(rt, "startClass") {
+	switch rapid.IntRange(0, 8).Draw(rt, "startClass") {
+	case 8:
+		return bop{Kind: "start-cap", Port: rapid.IntRange(0, 160).Draw(rt, "rawCap")}
 	case 7:
 		// a canonical message followed by bytes that do not belong to it (tolerated by the decoder)
 		w := gen.WireMsg(rt, 6, 800, true)
